@@ -38,7 +38,7 @@ private:
   void RemoveEquatedCsts();
   void UpdateExpressions();
 
-  [[nodiscard]] rslang::ExpressionType Evaluate(EntityUID uid) const;
+  [[nodiscard]] std::optional<rslang::ExpressionType> Evaluate(EntityUID uid) const;
 };
 
 } // namespace ccl::ops
